@@ -158,7 +158,7 @@ def nexthop_forms_update(rng):
 def oversize_update(rng, asn4):
     """attribute values across the 255-octet boundary (2-octet length form) and messages towards the 4096-octet limit"""
     at = {1: 0, 2: [], 3: gen.ipv4(rng), 5: 100}
-    k = rng.choice([8, 10, 16, 32, 2, 'nlri', 'mp'])
+    k = rng.choice([8, 10, 16, 32, 2, 'nlri', 'mp', 'limit', 'limit'])
     n = rng.choice([64, 65, 100, 300, 1100])
     m = {'attr': at, 'nlri': ['192.0.2.0/24']}
     if k == 8:
@@ -172,6 +172,14 @@ def oversize_update(rng, asn4):
         at[32] = [gen.large_community_text(rng) for _ in range(min(n, 300))]
     elif k == 2:
         at[2] = [[rng.choice([1, 2]), [rng.choice(gen.ASN4 if asn4 else gen.ASN2) for _ in range(rng.choice([255, 256, 300, 600]))]]]
+    elif k == 'limit':
+        # a request whose message would be exactly T octets, T around the 4096-octet maximum:
+        # 19 header + 4 length fields + 21 attribute octets (ORIGIN, empty AS_PATH, NEXT_HOP, LOCAL_PREF) + NLRI
+        T = rng.randint(4080, 4125)
+        rest = T - 44
+        extra = {0: [], 1: ['203.0.113.9/32'], 2: ['11.0.0.0/8'], 3: ['172.16.0.0/16']}[rest % 4]
+        n24 = (rest - {0: 0, 1: 5, 2: 2, 3: 3}[rest % 4]) // 4
+        m['nlri'] = ['10.%d.%d.0/24' % (i // 256, i % 256) for i in range(n24)] + extra
     elif k == 'nlri':
         m['nlri'] = ['10.%d.%d.0/24' % (i // 256, i % 256) for i in range(rng.choice([600, 1020, 1021, 1200]))]
         if rng.random() < 0.5:
